@@ -480,3 +480,10 @@ Print Assumptions C02_check_291_expectations.
 
 Example ex_toFlags_default : toFlags (opts_of_jopts (mkOpts false false false false)) = 1 /\ toFlags (opts_of_jopts (mkOpts true true true true)) = 84.
 Proof. split; reflexivity. Qed.
+
+(* (G) JSON whitespace: internal/json IsSpace (the blank mask the converter's front end skips with), from the Go source
+   (gen/Gen_json.v), is the whitespace of the Json.v grammar *)
+From DG Require Gen_json GenJsonProofs.
+Theorem C02_IsSpace_from_source : forall c, 0 <= c < 256 -> Gen_json.IsSpace c = is_ws c.
+Proof. exact GenJsonProofs.IsSpace_is_ws. Qed.
+Print Assumptions C02_IsSpace_from_source.
